@@ -87,6 +87,32 @@ def prelude_consumers(facts, entries):
     return out
 
 
+def generic_consumers(facts, entries):
+    """GenericParser::parse interpreted with the core call and verify_claims summarised (rules/claims_sem.py parse_contracts): exactly one
+    core call with (token, key, self.footer[, self.implicit_assertion]) on every path - through whatever private helpers and traits"""
+    from . import claims_sem
+    out = {}
+    by = {}
+    for f in claims_sem.parse_contracts(facts, entries):
+        by.setdefault(f.where, []).append(f)
+    for e in S.select(entries, "generic", "consumer"):
+        fs0 = by.get(e.id, [])
+        if not fs0 or any(f.ok is None for f in fs0):
+            out[e.id] = None, (fs0[0].msg if fs0 else "no contract computed")
+            continue
+        ok = all(f.ok for f in fs0)
+        msg = "; ".join(f.msg for f in fs0 if not f.ok)[:400]
+        v = M.view(facts, e.body)
+        fs = []
+        rl = "C01.R7" if e.vp[1] == "Local" else "C02.R5"
+        _f(fs, rl, ok, e.id, "token and key forwarded" if ok else "core call contract", msg, e.body["line"], v.file(), desc="%s: token, key forwarded to one core call" % e.label)
+        _f(fs, "C05.R5", ok, e.id, "expected footer forwarded" if ok else "core call contract", msg, e.body["line"], v.file(), desc="%s: self.footer forwarded" % e.label)
+        if e.vp[0] in ("V3", "V4"):
+            _f(fs, "C06.R4", ok, e.id, "expected assertion forwarded" if ok else "core call contract", msg, e.body["line"], v.file(), desc="%s: self.implicit_assertion forwarded" % e.label)
+        out[e.id] = fs, None
+    return out
+
+
 def prelude_producers(facts, entries):
     out = {}
     for e in S.select(entries, "prelude", "producer"):
@@ -356,8 +382,32 @@ def setters(facts):
                 good = fv is not None and _d(I, o.state, fv) == "X"
             if not good:
                 probs.append("after the call .%s is %r, not the argument, when [%s]" % (field, fv, " & ".join(o.state.cond)[-120:]))
-        out[b["id"]] = [Finding(r, not probs, b["id"], "setter stores its argument", "%s must store its argument in .%s on every path; %s" % (M.short(b["id"]), field, "; ".join(sorted(set(probs)))[:300]), v.file(), b["line"],
-                                "%s stores its argument" % M.short(b["id"])) for r in rules], None
+        fs = [Finding(r, not probs, b["id"], "setter stores its argument", "%s must store its argument in .%s on every path; %s" % (M.short(b["id"]), field, "; ".join(sorted(set(probs)))[:300]), v.file(), b["line"],
+                      "%s stores its argument" % M.short(b["id"])) for r in rules]
+        # frame condition: what was set earlier through the sibling setters stays (a setter that rebuilds the object from defaults silently
+        # drops a footer / assertion / payload given before it)
+        clobbered = {}
+        for o in outs:
+            cur = I.resolve(o.state, o.state.store.get(me))
+            others = {}
+            if isinstance(cur, A.Struct):
+                others = {k: x for k, x in cur.fields.items() if k != field}
+            else:
+                others = {f_: x for (sid, f_), x in o.state.symfields.items() if sid == me_v.id and f_ != field}
+            for k, x in others.items():
+                x = I.resolve(o.state, x)
+                if k in ("version", "purpose") or (isinstance(x, A.Sym) and x.name == "self.%s" % k):
+                    continue
+                if isinstance(cur, A.Struct) and isinstance(x, A.Ptr):
+                    x2 = MD.deref(I, o.state, x)
+                    if isinstance(x2, A.Sym) and x2.name == "self.%s" % k:
+                        continue
+                clobbered.setdefault(k, repr(x)[:80])
+        FRAME = {"footer": ("C05.R5",), "implicit_assertion": ("C06.R4",)}
+        for k, what in sorted(clobbered.items()):
+            for r in FRAME.get(k, ()) + ("C01.R7", "C02.R5"):
+                fs.append(Finding(r, False, b["id"], "setter overwrites .%s" % k, "%s must leave the %s set earlier untouched; afterwards it is %s" % (M.short(b["id"]), k, what), v.file(), b["line"]))
+        out[b["id"]] = fs, None
     for pat, adt, field, inner, rules in FORWARDERS:
         bs = [b for bid, b in facts.bodies.items() if re.search(pat, bid)]
         if len(bs) != 1:
@@ -440,6 +490,7 @@ def analyse(facts, entries):
         d.update(prelude_consumers(facts, entries))
         d.update(prelude_producers(facts, entries))
         d.update(generic_producers(facts, entries))
+        d.update(generic_consumers(facts, entries))
         d.update(setters(facts))
         _memo[k] = d
     return _memo[k]
